@@ -136,7 +136,7 @@ def configs(draw, tier='quick', solvers=lab.SOLVERS, need_constraint=False, allo
         cfg['cost'] = draw(lab.cost_specs(dim, families=('vec',)))
         cfg['reducer'] = dict(kind=draw(st.sampled_from(['sum', 'max', 'mean', 'add2', 'max2'])))
     else:
-        cfg['cost'] = draw(lab.cost_specs(dim, families=families or ('quad', 'rosen', 'abs', 'cos', 'plateau', 'infhalf')))
+        cfg['cost'] = draw(lab.cost_specs(dim, families=families or ('quad', 'rosen', 'abs', 'cos', 'plateau', 'infhalf', 'stair', 'rast', 'rast')))
     if draw(st.integers(0, 7)) == 0:
         cfg['extra'] = [draw(st.sampled_from([0.5, -1.0, 2.0]))]
     if kind in ('DE', 'DE2'):
